@@ -91,14 +91,14 @@ def run_alg(ctx, alg):
     ctx.cov["tlc_generated_cases"] = len(cases)
     import random
     rng = random.Random(ctx.seed)
-    nrep = ctx.pick(4000, 70000)
+    nrep = ctx.pick(4000, 10**9)
     if len(cases) > nrep:
         cases = rng.sample(cases, nrep)
     ctx.cov["tlc_generated_cases_replayed"] = len(cases)
     cpath = os.path.join(ctx.tmp, "sh-cases.ndjson")
     vf.write_ndjson(cpath, cases)
     out = os.path.join(ctx.tmp, "sh.ndjson")
-    ctx.run_vh(["sighash", "-alg", alg, "-cases", cpath, "-out", out] + ctx.pick(["-n", "150", "-per", "10"], ["-n", "3000", "-per", "16"]))
+    ctx.run_vh(["sighash", "-alg", alg, "-cases", cpath, "-out", out] + ctx.pick(["-n", "150", "-per", "10"], ["-n", "12000", "-per", "16"]))
     events = vf.read_ndjson(out)
     os.unlink(out)
     judge(ctx, events)
